@@ -350,7 +350,7 @@ def solve_one(ob, timeout_ms):
         s = z3.Solver()
         s.set('timeout', min(timeout_ms, 1500))
         s.add(*ob.pc)
-        r = s.check()
+        r = guarded_check(s, min(timeout_ms, 1500))
         ob.seconds = time.time() - t
         ob.backend = 'z3'
         # cover: must be satisfiable (unknown counts as reachable-not-disproved: fine for a vacuity guard)
@@ -368,7 +368,7 @@ def solve_one(ob, timeout_ms):
         s.set('timeout', int(timeout_ms))
         s.add(*ob.pc)
         s.add(z3.Not(ob.goal))
-        r = s.check()
+        r = guarded_check(s, int(timeout_ms))
         ob.backend = 'z3'
         if r == z3.unsat:
             ob.verdict = 'proved'
@@ -451,7 +451,7 @@ def _solve_conjunct(ob, flat_pc, qf, c, sk, timeout_ms):
             s.set(kk, vv)
         s.add(*hyps)
         s.add(z3.Not(c))
-        return s.check(), s
+        return guarded_check(s, int(ms)), s
     quantified_goal = any_quantifier([c])
     third = max(2500, timeout_ms // 3)
     extra = None
@@ -511,6 +511,7 @@ def _solve_conjunct(ob, flat_pc, qf, c, sk, timeout_ms):
 
 
 def cli_check(solver, exe, timeout_s):
+    beat()
     try:
         smt = solver.to_smt2()
     except Exception:
